@@ -182,6 +182,10 @@ def check_pem(case):
     key = d.to_bytes(32, "big")
     if key[0] == 0:
         cls.append("nt:key-leading-zeros")
+        if key[1] >= 0x80:
+            cls.append("nt:key-one-leading-zero-then-high-bit")  # reads like a DER integer carrying its sign byte
+    if key in gen.LOOKALIKE_KEYS32:
+        cls.append("nt:key-reads-as-text")
     cls.append("nt:pem-" + mode)
     if mode == "priv":
         pem = attempt(bits.pem_encode_key, key)
@@ -342,6 +346,9 @@ def key32():
         gen.scalars_valid().map(lambda v: v.to_bytes(32, "big")),
         st.integers(1, 31).flatmap(lambda z: st.binary(min_size=32 - z, max_size=32 - z).map(lambda b: b"\x00" * z + (b if any(b) else b[:-1] + b"\x01"))),
         st.integers(1, 255).map(lambda v: v.to_bytes(32, "big")),
+        gen.lookalike_keys32(),  # keys whose 32 bytes read as text (hex digits, whitespace)
+        # exactly one leading zero byte: followed by a byte >= 0x80 the key looks like a DER integer with its sign byte
+        st.tuples(st.sampled_from([0x80, 0x81, 0xE7, 0xFF, 0x7F, 0x01]), st.binary(min_size=30, max_size=30)).map(lambda t: b"\x00" + bytes([t[0]]) + t[1]),
     )
 
 
@@ -382,12 +389,12 @@ def wif_cases(draw):
 
 @st.composite
 def pem_cases(draw):
-    return {"d": draw(st.one_of(gen.scalars_valid(), st.integers(1, 255))), "mode": draw(st.sampled_from(["priv", "pub-c", "pub-u", "openssl-priv", "openssl-pub", "openssl-priv-compressed", "openssl-pub-compressed"])),
+    return {"d": draw(st.one_of(gen.scalars_valid(), st.integers(1, 255), key32().map(lambda b: int.from_bytes(b, "big")))), "mode": draw(st.sampled_from(["priv", "pub-c", "pub-u", "openssl-priv", "openssl-pub", "openssl-priv-compressed", "openssl-pub-compressed"])),
             "end": draw(st.sampled_from([False, False, True]))}
 
 
 def enum_pem_corpus(tier):
-    for d in (1, 2, 255, 256, 2**200, N - 1, N // 2):
+    for d in (1, 2, 255, 256, 2**200, N - 1, N // 2, 0x80 << 240, (0xE7 << 240) | 1, 0x7F << 240, int.from_bytes(gen.LOOKALIKE_KEYS32[0], "big"), int.from_bytes(gen.LOOKALIKE_KEYS32[2], "big")):
         for mode in ("priv", "pub-c", "pub-u", "openssl-priv", "openssl-pub", "openssl-priv-compressed", "openssl-pub-compressed"):
             yield {"d": d, "mode": mode}
 
@@ -401,7 +408,7 @@ def _targets(tier):
                required=["nt:key-31-leading-zero-bytes", "nt:suffix", "nt:suffix>=57-bytes", "nt:after-same-key-other-type-network-suffix", "nt:wif-unknown-version", "nt:wif-mutated", "nt:bad-key-len", "nt:bad-key-range"]),
         Target("pem", check_pem, strategy=lambda tier: pem_cases(), budget={"quick": 320, "thorough": 6000},
                required=["nt:pem-priv", "nt:pem-openssl-priv", "nt:pem-openssl-pub", "nt:pem-openssl-priv-compressed", "nt:pem-openssl-pub-compressed", "nt:key-leading-zeros", "nt:pem-der-ends-in-whitespace-or-nul"] if HAVE_OPENSSL else ["nt:pem-priv", "nt:pem-der-ends-in-whitespace-or-nul"]),
-        Target("pem-fixed", check_pem, enumerate_=enum_pem_corpus, shards=4),
+        Target("pem-fixed", check_pem, enumerate_=enum_pem_corpus, shards=4, required=["nt:key-one-leading-zero-then-high-bit", "nt:key-reads-as-text"]),
     ]
 
 
